@@ -46,6 +46,8 @@ class Cfg:
                 for w in sorted({0, (1 << bb) - 1}):
                     words.append(base + t * way + s * blk + 4 * w)
         self.words = sorted(set(words))
+        # every word of every block that contains a universe word (a write-back stores whole blocks)
+        self.block_words = sorted({(a & ~(blk - 1)) + 4 * i for a in self.words for i in range(blk // 4)})
         self.bytes = [a + b for a in self.words for b in range(4)]
         ops = []
         if alphabet == "full":
@@ -78,6 +80,7 @@ class Cfg:
                 ops.append(("w", 4, a, 1))
                 ops.append(("w", 1, a + 1, 2))
                 ops.append(("w", 2, a + 2, 1))
+            ops.append(("table", 4, base, 0))  # the data-memory table is looked at (an observer as an operation)
         elif alphabet == "control":
             for a in self.words:
                 ops.append(("r", 4, a, 0))
@@ -177,6 +180,10 @@ class World:
             if checks is not None and self.pm.cycles != cyc0:
                 checks.append(("penalty", f"reset() advanced the cycle counter by {self.pm.cycles - cyc0}"))
             return "ok"
+        if kind == "table":
+            tmp = [] if checks is None else checks
+            self.check_tables(tmp, " (operation of the history)")
+            return "ok"
         crossing = (a & 3) + width > 4
         st0 = mem.get_cache_stats() if checks is not None else None
         cyc0 = self.pm.cycles
@@ -261,10 +268,37 @@ class World:
         return blocks, status
 
     def backing_words(self):
+        """What the backing Memory holds, read word by word with its own read function (not through a table function:
+        the tables are among the things being checked)."""
+        lower = getattr(self.mem, "memory", None)
         out = {}
+        if lower is not None and hasattr(lower, "read_word"):
+            for a in self.cfg.block_words:
+                v = int(lower.read_word(a))
+                if v:
+                    out[a] = v
+            return out
         for a, reps in self.mem.wordwise_repr().items():
             out[a] = int(reps[1])
         return out
+
+    def check_tables(self, checks, when=""):
+        """The data-memory table of the simulation and the word table of the cached system show the backing store."""
+        backing = self.backing_words()
+        for name, tab in (("get_data_memory_entries()", lambda: {a: int(r[1]) for (a, _h), r in self.sim.get_data_memory_entries()}),
+                          ("wordwise_repr() of the cached memory system", lambda: {a: int(r[1]) for a, r in self.mem.wordwise_repr().items()})):
+            try:
+                shown = tab()
+            except Exception as e:  # noqa
+                checks.append(("memory-table", f"{name}{when} raised {type(e).__name__}: {e}"))
+                return
+            for a in sorted(set(shown) | set(backing)):
+                if a not in self.cfg.block_words:
+                    checks.append(("memory-table", f"{name}{when} lists {a:#x}, which is in no block that was ever touched"))
+                    return
+                if shown.get(a, 0) != backing.get(a, 0):
+                    checks.append(("memory-table", f"{name}{when} shows {shown.get(a, 0):#x} at {a:#x}, the backing memory holds {backing.get(a, 0):#x}"))
+                    return
 
     def logical_word(self, a):
         v = 0
@@ -319,15 +353,7 @@ class World:
                     checks.append(("wb-value-lost", f"write-back: backing memory at {a:#x} holds {bw:#x}, logical contents {lw:#x}, block not resident"))
                     return
         # the table shown to the user is the backing store
-        shown = {a: int(r[1]) for (a, _h), r in self.sim.get_data_memory_entries()}
-        if shown != backing:
-            checks.append(("memory-table", "get_data_memory_entries() differs from wordwise_repr() of the memory system"))
-        lower = getattr(self.mem, "memory", None)  # the backing Memory object the property names
-        if lower is not None and hasattr(lower, "wordwise_repr"):
-            direct = {a: int(r[1]) for a, r in lower.wordwise_repr().items()}
-            if direct != backing:
-                a = sorted(set(direct) ^ set(backing) | {x for x in direct if x in backing and direct[x] != backing[x]})[0]
-                checks.append(("memory-table", f"the table of the cached memory system shows {backing.get(a)} at {a:#x}, the backing memory holds {direct.get(a)}"))
+        self.check_tables(checks)
 
     def check_readback(self, checks):
         """Destructive on the cache state — only used on throw-away objects, after the state key was taken."""
@@ -374,6 +400,8 @@ def opname(op):
     kind, width, a, vi = op[:4]
     if kind == "reset":
         return "reset()"
+    if kind == "table":
+        return "get_data_memory_entries()"
     alias = op[4] if len(op) > 4 else 0
     w = {1: "byte", 2: "halfword", 4: "word"}[width]
     at = f"{a:#x}" + ("" if not alias else (" - 2^32" if alias < 0 else " + 2^32"))
